@@ -42,7 +42,7 @@ impl CodeGenerator {
         instructions: &InstructionCache,
         max_points: usize,
     ) -> Option<Item> {
-        if max_points > 0 {
+        if max_points > 1 {
             let mut rng = rand::thread_rng();
             let actual_points = Uniform::from(1..max_points).sample(&mut rng);
             Some(CodeGenerator::random_code_with_size(
